@@ -128,8 +128,8 @@ Definition collateral_return_guard_gen (check_vs : bool) (cfg : config) (ret : o
 
 (* ---- switches: the state of /repo (flipped when a repair lands there; every theorem is proved
         for the repaired value, every *_refuted lemma speaks about the unrepaired one) ---- *)
-Definition helper_repaired : bool := false.
-Definition collateral_checks_value_size : bool := false.
+Definition helper_repaired : bool := true.
+Definition collateral_checks_value_size : bool := true.
 
 Definition helper_required_coin := helper_required_coin_gen helper_repaired.
 Definition helper_output := helper_output_gen helper_repaired.
